@@ -862,6 +862,90 @@ def fold_container_aliases(rel, module, refnames):
     return done
 
 
+def _const_expr(e):
+    """a literal scalar, or arithmetic / tuples over such (10**6, ('a', 'b'), -1)"""
+    if isinstance(e, ast.Constant):
+        return not isinstance(e.value, (bytes,)) or True
+    if isinstance(e, ast.UnaryOp) and isinstance(e.op, (ast.USub, ast.UAdd)):
+        return _const_expr(e.operand)
+    if isinstance(e, ast.BinOp) and isinstance(e.op, (ast.Add, ast.Sub, ast.Mult, ast.Pow, ast.FloorDiv)):
+        return _const_expr(e.left) and _const_expr(e.right)
+    if isinstance(e, ast.Tuple):
+        return all(_const_expr(x) for x in e.elts)
+    return False
+
+
+def inline_named_constants(rel, module, refidents):
+    """Step S43.  A NEW module-level (or class-level) name bound once to a constant expression - a named constant introduced for
+    a magic number or string - is replaced by its value wherever the module reads it (`NAME`, `self.NAME`, `Class.NAME`).  The
+    name must not occur in the reference tree, must be bound exactly once in the module and never be the target of a `global`
+    declaration, an augmented assignment, a `del` or an attribute store."""
+    import copy as _c11
+    tree = module.tree
+    cands = {}
+    for st in tree.body:
+        if isinstance(st, ast.Assign) and len(st.targets) == 1 and isinstance(st.targets[0], ast.Name) and _const_expr(st.value):
+            cands.setdefault(st.targets[0].id, []).append(('mod', st))
+        if isinstance(st, ast.ClassDef):
+            for s2 in st.body:
+                if isinstance(s2, ast.Assign) and len(s2.targets) == 1 and isinstance(s2.targets[0], ast.Name) and _const_expr(s2.value):
+                    cands.setdefault(s2.targets[0].id, []).append(('cls:' + st.name, s2))
+    if not cands:
+        return {}
+    stores = {}
+    for x in ast.walk(tree):
+        if isinstance(x, ast.Name) and isinstance(x.ctx, (ast.Store, ast.Del)):
+            stores[x.id] = stores.get(x.id, 0) + 1
+        elif isinstance(x, (ast.Global, ast.Nonlocal)):
+            for nm in x.names:
+                stores[nm] = stores.get(nm, 0) + 10
+        elif isinstance(x, ast.Attribute) and isinstance(x.ctx, (ast.Store, ast.Del)):
+            stores[x.attr] = stores.get(x.attr, 0) + 10
+        elif isinstance(x, ast.arg):
+            stores[x.arg] = stores.get(x.arg, 0) + 10
+    done = {}
+    for nm, lst in cands.items():
+        if len(lst) != 1 or stores.get(nm, 0) != 1 or nm in refidents or nm.startswith('__'):
+            continue
+        where, st = lst[0]
+        val = st.value
+
+        class T(ast.NodeTransformer):
+            def __init__(self):
+                self.n = 0
+
+            def visit_Name(self, n_):
+                if where == 'mod' and n_.id == nm and isinstance(n_.ctx, ast.Load):
+                    self.n += 1
+                    return _relocate(_c11.deepcopy(val), n_)
+                return n_
+
+            def visit_Attribute(self, n_):
+                self.generic_visit(n_)
+                if where.startswith('cls:') and n_.attr == nm and isinstance(n_.ctx, ast.Load) and isinstance(n_.value, ast.Name) \
+                        and n_.value.id in ('self', 'cls', where[4:]):
+                    self.n += 1
+                    return _relocate(_c11.deepcopy(val), n_)
+                return n_
+        t = T()
+        if where.startswith('cls:'):
+            cls = next(c for c in tree.body if isinstance(c, ast.ClassDef) and c.name == where[4:])
+            # inside the class body itself the bare name refers to it as well (other class-level statements)
+            t.visit(cls)
+            cls.body.remove(st)
+            if not cls.body:
+                cls.body.append(ast.Pass())
+        else:
+            for i_, b_ in enumerate(tree.body):
+                if b_ is not st:
+                    tree.body[i_] = t.visit(b_)
+            tree.body.remove(st)
+        done[nm] = t.n
+    if done:
+        ast.fix_missing_locations(tree)
+    return done
+
+
 def strip_local_annotations(module):
     """Step S40.  Inside functions `x: T = v` / `self.a: T = v` -> the plain assignment, and a bare `x: T` is dropped: inside a
     function an annotation is never evaluated (PEP 526), so the statement is the plain assignment.  (Module and class level
